@@ -999,6 +999,71 @@ theorem C04_pytensor_f8_sign (neg : Bool) (m : Nat) (e : Int) :
     simp only [encF8, sgn8, Bool.false_eq_true, if_false, if_true, Nat.zero_add] <;>
     (try (repeat' split)) <;> (try omega)
 
+theorem roundU_eq (mb : Nat) (qmin : Int) (m : Nat) (e : Int) :
+    roundU mb qmin m e = (roundQ mb qmin m e - qmin).toNat * 2 ^ mb + roundR mb qmin m e := rfl
+
+/-- **C04_pytensor_f8_halfulp**: the rounding core of `encF8` against a specification that does not
+    mention the algorithm (no division, no remainder, no case split on the discarded bits).  For
+    EVERY format (`mb` fraction bits, smallest subnormal `2^qmin`) and every positive `m * 2^e`:
+    `roundU = (q - qmin) * 2^mb + r` where `q >= qmin` is the exponent of the unit in the last place
+    and `r` the rounded significand; if `2^q` divides the input the result is EXACT
+    (`r = m * 2^(e-q)`); otherwise, with `P = 2^(q-e)`, `|m - r * P| <= P / 2` (written without
+    subtraction and doubled: `2 r P <= 2 m + P` and `2 m <= (2 r + 1) P`) -- `r * 2^q` is a NEAREST
+    multiple of `2^q` to `m * 2^e` -- and when the input lies exactly halfway (either side) `r` is
+    EVEN: round to nearest, ties to even.  Together with `C04_pytensor_f8_roundtrip` (every
+    representable value is a fixed point) and `C04_pytensor_f8_sign` (overflow / sign rules) this
+    is the numeric meaning of the conversion. -/
+theorem C04_pytensor_f8_halfulp (mb : Nat) (qmin : Int) (m : Nat) (e : Int) :
+    qmin ≤ roundQ mb qmin m e ∧
+    (roundQ mb qmin m e ≤ e → roundR mb qmin m e = m * 2 ^ (e - roundQ mb qmin m e).toNat) ∧
+    (e < roundQ mb qmin m e →
+      (2 * roundR mb qmin m e * 2 ^ (roundQ mb qmin m e - e).toNat ≤ 2 * m + 2 ^ (roundQ mb qmin m e - e).toNat ∧
+       2 * m ≤ (2 * roundR mb qmin m e + 1) * 2 ^ (roundQ mb qmin m e - e).toNat ∧
+       (2 * m = (2 * roundR mb qmin m e + 1) * 2 ^ (roundQ mb qmin m e - e).toNat → roundR mb qmin m e % 2 = 0) ∧
+       (2 * m + 2 ^ (roundQ mb qmin m e - e).toNat = 2 * roundR mb qmin m e * 2 ^ (roundQ mb qmin m e - e).toNat →
+          roundR mb qmin m e % 2 = 0))) := by
+  refine ⟨by simp only [roundQ]; omega, ?_, ?_⟩
+  · intro h; simp only [roundR, h, if_true]
+  · intro h
+    have hn : ¬ roundQ mb qmin m e ≤ e := by omega
+    simp only [roundR, hn, if_false]
+    generalize hs : (roundQ mb qmin m e - e).toNat = s
+    have hs1 : 1 ≤ s := by omega
+    obtain ⟨t, rfl⟩ : ∃ t, s = t + 1 := ⟨s - 1, by omega⟩
+    simp only [Nat.add_sub_cancel]
+    have hP : 2 ^ (t + 1) = 2 * 2 ^ t := by rw [Nat.pow_succ]; omega
+    have hpos : 0 < 2 ^ t := Nat.two_pow_pos t
+    have hdm := Nat.div_add_mod m (2 ^ (t + 1))
+    have hlt := Nat.mod_lt m (show 0 < 2 ^ (t + 1) by omega)
+    generalize hfl : m / 2 ^ (t + 1) = fl at *
+    generalize hrem : m % 2 ^ (t + 1) = rem at *
+    generalize hX : 2 ^ (t + 1) * fl = X at *
+    have hX2 : fl * 2 ^ (t + 1) = X := by rw [Nat.mul_comm]; exact hX
+    rw [hP] at hlt
+    split
+    · rename_i hc
+      have e1 : 2 * (fl + 1) * 2 ^ (t + 1) = 2 * X + 2 * 2 ^ (t + 1) := by
+        rw [← hX2, Nat.mul_assoc, Nat.add_mul, Nat.one_mul, Nat.mul_add]
+      have e2 : (2 * (fl + 1) + 1) * 2 ^ (t + 1) = 2 * X + 3 * 2 ^ (t + 1) := by
+        rw [Nat.add_mul, e1, Nat.one_mul]; omega
+      rw [e1, e2, hP]
+      refine ⟨by omega, by omega, by omega, ?_⟩
+      intro h2
+      rcases hc with hc | ⟨hc1, hc2⟩
+      · omega
+      · omega
+    · rename_i hc
+      have e1 : 2 * fl * 2 ^ (t + 1) = 2 * X := by rw [← hX2, Nat.mul_assoc]
+      have e2 : (2 * fl + 1) * 2 ^ (t + 1) = 2 * X + 2 ^ (t + 1) := by rw [Nat.add_mul, e1, Nat.one_mul]
+      rw [e1, e2, hP]
+      have hc' : rem ≤ 2 ^ t ∧ (rem = 2 ^ t → fl % 2 = 0) := by
+        constructor
+        · omega
+        · intro hr; have : ¬ (fl % 2 = 1) := fun h1 => hc (Or.inr ⟨hr, h1⟩); omega
+      refine ⟨by omega, by omega, ?_, by omega⟩
+      intro h2
+      exact hc'.2 (by omega)
+
 /-- **C04_pytensor_f8_agree**: `ir.tensor(value, dtype=T)` for a narrow float type `T` and ANY
     homogeneous nesting of bool / int64 / float scalars never raises and never leaves the model:
     it returns the array-backed tensor that reports `T` and the discovered shape, whose elements
